@@ -89,17 +89,38 @@ theorem C19_autoload_durable (sw : Bool) (cls : Cls) (ops : List Op) (v : Nat)
 
 /-! ## Clause 1, one save at a time (any starting file system) -/
 
-/-- a save that fails under both picklers leaves both save files exactly as they were -/
-theorem C19_failed_save_keeps (sw : Bool) (fs : FS) (cls : Cls) (v : Nat) :
-    (saveFS ⟨.atomicReplace, sw⟩ fs .bothFail cls v).pckl = fs.pckl ∧
-      (saveFS ⟨.atomicReplace, sw⟩ fs .bothFail cls v).cpckl = fs.cpckl :=
-  save_bothFail_files_atomic sw fs cls v
+/-- a save that fails -- under both picklers, or under `pickle` alone when it was asked for with the per-call flag
+`cloudpickle_fallback=False`, or because the node is not import-ready under that flag -- leaves both save files exactly
+as they were (in particular a good `.cpckl` survives a failing no-fallback save: seeded change C19-5) -/
+theorem C19_failed_save_keeps (sw : Bool) (fs : FS) (c : Content) (hf : c.fails = true) (cls : Cls) (v : Nat) :
+    (saveFS ⟨.atomicReplace, sw⟩ fs c cls v).pckl = fs.pckl ∧
+      (saveFS ⟨.atomicReplace, sw⟩ fs c cls v).cpckl = fs.cpckl :=
+  save_bothFail_files_atomic sw fs c hf cls v
+
+/-- ... and so does every prefix of it (the save interrupted at any call) -/
+theorem C19_failed_save_interrupted_keeps (sw : Bool) (fs : FS) (c : Content) (hf : c.fails = true) (cls : Cls) (v k : Nat) :
+    (crashFS ⟨.atomicReplace, sw⟩ fs c cls v k).pckl = fs.pckl ∧
+      (crashFS ⟨.atomicReplace, sw⟩ fs c cls v k).cpckl = fs.cpckl :=
+  crash_bothFail_files_atomic sw fs c hf cls v k
+
+/-- the per-call flag on the reading side: `load(cloudpickle_fallback=False)` looks at `.pckl` only; whatever it
+returns is what the unrestricted load returns, and it finds nothing exactly when no `.pckl` file exists -/
+theorem C19_restricted_load_agrees (fs : FS) (c : Cls) (v : Nat) (h : storageLoadF false fs = .ok c v) :
+    storageLoad fs = .ok c v ∧ storageLoadF true fs = .ok c v := by
+  obtain ⟨d, p, q, pt, ct⟩ := fs
+  cases p <;> simp_all [storageLoadF, storageLoad]
+
+theorem C19_restricted_flag_true_is_default (fs : FS) :
+    storageLoadF true fs = storageLoad fs ∧ hasSavedF true fs = hasSaved fs ∧
+      (storageLoadF false fs = .notFound ↔ hasSavedF false fs = false) := by
+  obtain ⟨d, p, q, pt, ct⟩ := fs
+  cases p <;> simp [storageLoadF, storageLoad, hasSavedF, hasSaved]
 
 /-- a save interrupted after any number of steps: loading selects what it selected before, or
 the new version fully written -/
 theorem C19_interrupted_save_keeps (sw : Bool) (fs : FS) (c : Content) (cls : Cls) (v k : Nat) :
     storageLoad (crashFS ⟨.atomicReplace, sw⟩ fs c cls v k) = storageLoad fs ∨
-      (c ≠ .bothFail ∧ storageLoad (crashFS ⟨.atomicReplace, sw⟩ fs c cls v k) = .ok cls v) :=
+      (c.fails = false ∧ storageLoad (crashFS ⟨.atomicReplace, sw⟩ fs c cls v k) = .ok cls v) :=
   crash_sel_atomic sw fs c cls v k
 
 /-! ## The pinned code (`inPlace`): counter-witnesses and partial theorems -/
@@ -157,14 +178,14 @@ theorem C19_no_poison_partial (cfg : Cfg) (cls : Cls) (ops : List Op) (hn : noCr
 
 /-! ## Clause 3: a successful save is what the next load returns (both variants) -/
 
-theorem C19_last_wins (cfg : Cfg) (w : World) (c : Content) (v : Nat) (hc : c ≠ .bothFail) :
+theorem C19_last_wins (cfg : Cfg) (w : World) (c : Content) (v : Nat) (hc : c.fails = false) :
     (step cfg (step cfg w (.save c v)).1 .load) =
       ({ fs := saveFS cfg w.fs c w.node.cls v, node := ⟨w.node.cls, v⟩ }, .load (.loaded v)) := by
   have := save_last_wins cfg w.fs c w.node.cls v hc
   simp [step, nodeLoad, nodeLoadBy, ClassCheck.accepts, this]
 
 /-- also for a new object that auto-loads -/
-theorem C19_last_wins_autoload (cfg : Cfg) (w : World) (c : Content) (v : Nat) (hc : c ≠ .bothFail) :
+theorem C19_last_wins_autoload (cfg : Cfg) (w : World) (c : Content) (v : Nat) (hc : c.fails = false) :
     (step cfg (step cfg w (.save c v)).1 .reopen) =
       ({ fs := saveFS cfg w.fs c w.node.cls v, node := ⟨w.node.cls, v⟩ }, .load (.loaded v)) := by
   have := save_last_wins cfg w.fs c w.node.cls v hc
@@ -228,6 +249,21 @@ theorem C19_isinstance_check_accepts_foreign :
         (⟨Cls.ofRel .superclass, 1⟩, .loaded 1) ∧
       nodeLoad ⟨Cls.ofRel .superclass, 77⟩ (run Cfg.current (.init Cls.graph) [.save .ok 1]).fs =
         (⟨Cls.ofRel .superclass, 77⟩, .classMismatch) := by decide
+
+/-- a refused load of a COMPOSITE (or of a node sitting in one) also leaves its children and connections what they
+were: the class check comes before the preparation that releases the current children ... -/
+theorem C19_refused_load_keeps_children (c : Comp) (fs : FS) (h : ∀ v, (compLoad false c fs).2 ≠ .loaded v) :
+    (compLoad false c fs).1 = c := by
+  unfold compLoad at h ⊢
+  split <;> (try split) <;> simp_all
+
+/-- ... with the check moved behind that preparation (seeded change C19-6) the load is still refused, and every child is
+orphaned -/
+theorem C19_late_class_check_orphans :
+    compLoad true ⟨⟨Cls.ofRel .diffName, 77⟩, true⟩ (run Cfg.current (.init Cls.graph) [.save .ok 1]).fs =
+        (⟨⟨Cls.ofRel .diffName, 77⟩, false⟩, .classMismatch) ∧
+      compLoad false ⟨⟨Cls.ofRel .diffName, 77⟩, true⟩ (run Cfg.current (.init Cls.graph) [.save .ok 1]).fs =
+        (⟨⟨Cls.ofRel .diffName, 77⟩, true⟩, .classMismatch) := by decide
 
 /-- more generally every load that does not succeed leaves the node as it was -/
 theorem C19_refused_load_unchanged (n : NodeSt) (fs : FS) (h : ∀ v, (nodeLoad n fs).2 ≠ .loaded v) :
@@ -307,11 +343,11 @@ theorem C19_delete_cleans_partial (sw : Bool) (fs : FS)
 /-- from ANY file-system state -- in particular one where a save interrupted between `os.replace` and the removal of
 the other suffix left two complete files -- a completed save leaves exactly ONE final-name file: the new one.  No stale
 file of the other suffix survives for `_load` to prefer. -/
-theorem C19_save_leaves_single_suffix (sw : Bool) (fs : FS) (c : Content) (cls : Cls) (v : Nat) (hc : c ≠ .bothFail) :
+theorem C19_save_leaves_single_suffix (sw : Bool) (fs : FS) (c : Content) (cls : Cls) (v : Nat) (hc : c.fails = false) :
     ((saveFS ⟨.atomicReplace, sw⟩ fs c cls v).pckl = .good cls v ∧ (saveFS ⟨.atomicReplace, sw⟩ fs c cls v).cpckl = .absent) ∨
     ((saveFS ⟨.atomicReplace, sw⟩ fs c cls v).pckl = .absent ∧ (saveFS ⟨.atomicReplace, sw⟩ fs c cls v).cpckl = .good cls v) := by
   obtain ⟨d, p, q, pt, ct⟩ := fs
-  cases c <;> simp_all [saveFS, saveSteps, attempt, runSteps, Step.apply, FS.set, FS.get, FS.noFiles]
+  cases c <;> simp_all [saveFS, saveSteps, attempt, runSteps, Step.apply, FS.set, FS.get, FS.noFiles, Content.fails]
 
 /-- both suffixes good is reachable (a `.cpckl` save, then a plain save cut right after its `os.replace`); `_load`
 prefers `.pckl`, which there is the NEWER one; in the mirrored state (`.pckl` old, `.cpckl` from the interrupted save)
@@ -360,7 +396,7 @@ theorem C19_tree_frame (tc : TCfg) (w : TWorld) (op : TOp) (s : Store) (h : op.t
     (tstep tc w op).1.tree.files s = w.tree.files s := tstep_frame tc w op s h
 
 /-- a checkpoint that can be written IS a save of the graph's own file -/
-theorem C19_checkpoint_is_main_save (tc : TCfg) (w : TWorld) (c : Content) (v : Nat) (hc : c ≠ .bothFail) :
+theorem C19_checkpoint_is_main_save (tc : TCfg) (w : TWorld) (c : Content) (v : Nat) (hc : c.fails = false) :
     tstep tc w (.ckpt c v) = tstep tc w (.on .main (.save c v)) := by
   simp [tstep, hc]
 
@@ -468,6 +504,14 @@ example : deleteFS ⟨.inPlace, false⟩ ⟨true, .good Cls.graph 1, .torn, .abs
 example : (run ⟨.inPlace, false⟩ (.init Cls.graph) [.save .ok 1, .save .bothFail 2]).fs = FS.init ∧
     (run Cfg.current (.init Cls.graph) [.save .ok 1, .save .bothFail 2]).fs = ⟨true, .good Cls.graph 1, .absent, .absent, .absent⟩ := by decide
 
+-- per-call `cloudpickle_fallback=False`: the last good save is a `.cpckl`; a no-fallback save that pickle cannot do /
+-- of a node that is not import-ready / interrupted keeps it; the restricted load does not see it, the default one does
+example : (run Cfg.current (.init Cls.graph) [.save .pickleFails 1, .save .nfNotImportable 2, .save .nfPickleFails 3,
+      .crash .nfPickleFails 4 2]).fs = ⟨true, .absent, .good Cls.graph 1, .empty, .absent⟩ ∧
+    storageLoadF false (run Cfg.current (.init Cls.graph) [.save .pickleFails 1, .save .nfNotImportable 2]).fs = .notFound ∧
+    storageLoad (run Cfg.current (.init Cls.graph) [.save .pickleFails 1, .save .nfNotImportable 2]).fs = .ok Cls.graph 1 ∧
+    (promise .init [.save .pickleFails 1, .save .nfNotImportable 2, .save .nfPickleFails 3, .crash .nfPickleFails 4 2]) =
+      ⟨some 1, []⟩ := by decide
 -- nested / checkpoint / recovery: a history with every kind of tree op and what each store then promises
 def exTree : List TOp :=
   [.on .main (.save .ok 1), .fail .ok 2, .on .childA (.save .pickleFails 3), .ckptCrash .ok 4 3, .failCrash .pickleFails 5 5,
@@ -489,6 +533,9 @@ end PwVerif.C19
 #print axioms PwVerif.C19.C19_no_poison
 #print axioms PwVerif.C19.C19_autoload_durable
 #print axioms PwVerif.C19.C19_failed_save_keeps
+#print axioms PwVerif.C19.C19_failed_save_interrupted_keeps
+#print axioms PwVerif.C19.C19_restricted_load_agrees
+#print axioms PwVerif.C19.C19_restricted_flag_true_is_default
 #print axioms PwVerif.C19.C19_interrupted_save_keeps
 #print axioms PwVerif.C19.C19_inplace_witness_failed_save
 #print axioms PwVerif.C19.C19_inplace_witness_crash
@@ -514,6 +561,8 @@ end PwVerif.C19
 #print axioms PwVerif.C19.C19_delete_leftover_witness
 #print axioms PwVerif.C19.C19_delete_cleans_partial
 #print axioms PwVerif.C19.C19_refused_load_unchanged
+#print axioms PwVerif.C19.C19_refused_load_keeps_children
+#print axioms PwVerif.C19.C19_late_class_check_orphans
 #print axioms PwVerif.C19.C19_save_leaves_single_suffix
 #print axioms PwVerif.C19.C19_both_suffixes_newest_wins
 #print axioms PwVerif.C19.C19_tree_durable
